@@ -81,6 +81,18 @@ def global_state(ex, prog, mode):
         return Agg('struct', 'SingletonHolder', None, (cellv, new_atomic(mk_int(0, 'usize'), 'state')))
     cfg = cm.Config(prefix_dots=1, dtags=('kv',), default_cid=True, form='quiet')
     client = cm.build_client(ex, prog, cfg)
+    if mode in ('set-api', 'set-twice'):
+        # the state is produced by the real set_global_default on an UNSET holder (a second call must be a no-op)
+        holder = global_state(ex, prog, 'unset')
+        ex.globals = {'SingletonHolder<StatsdClient>': Cell(holder, 'HOLDER')}
+        setter = [k for k in prog.funcs if k.endswith('set_global_default')]
+        if len(setter) != 1:
+            raise Unsupported('set_global_default not found (%d)' % len(setter))
+        ex.call(setter[0], [client])
+        if mode == 'set-twice':
+            other = cm.build_client(ex, prog, cm.Config(prefix_dots=0, dtags=(), default_cid=False, form='quiet'))
+            ex.call(setter[0], [other])
+        return ex.globals['SingletonHolder<StatsdClient>'].v
     from .stubs import arc_new
     arc = arc_new(ex, [client], 'Arc::new')
     cellv = Native('UnsafeCell', Cell(some(arc), 'holder-value'), fresh_id())
@@ -132,8 +144,14 @@ def run(out, replay_path=None):
     paths = obligations = 0
     stats = []
     sel = names if thorough else [n for i, n in enumerate(names) if n[4] != 1 or (i + out.seed) % 3 == 0]
+    api_done = set()
     for (n, meth, tr, t, nt, code) in sel:
-        for mode in ('set', 'unset'):
+        modes = ['set', 'unset']
+        if meth not in api_done and nt == 0:
+            # once per macro kind: the global state as left by set_global_default called once / twice
+            api_done.add(meth)
+            modes += ['set-api', 'set-twice']
+        for mode in modes:
             logs = {}
             for which in ('m', 'r'):
                 ex = Explorer(prog, timeout_ms=60000, seed=out.seed)
@@ -205,7 +223,7 @@ def run(out, replay_path=None):
             'queries': tot, 'evaluations': max(1, tot['total']), 'distinct_nontrivial': paths,
             'rule': 'one case = one feasible symbolic path of a macro expansion or of its reference call chain; per (macro, value type, tag count, global state) the two path sets must have identical event logs',
             'solver_time_s': round(st, 2), 'functions_encoded': sorted(fns)[:400], 'stubs': sorted(stubs_),
-            'bounds': {'macros': 7, 'driver_functions': len(sel), 'tags': '0..2', 'global_states': ['UNSET', 'COMPLETE(client with prefix, default tag, container id, handler, symbolic sink outcome)']},
+            'bounds': {'macros': 7, 'driver_functions': len(sel), 'tags': '0..2', 'global_states': ['UNSET', 'COMPLETE(client with prefix, default tag, container id, handler, symbolic sink outcome)', 'UNSET then set_global_default (real MIR) once', '... twice (0-tag form of each macro kind)']},
             'mir': dinfo, 'samples': samples or [{'note': 'none'}],
         },
     }
